@@ -30,10 +30,31 @@ class Interner:
         self.nonstr = False
         self.norm: dict = {}          # payload token -> payload token after a leaf serialize/deserialize round trip
         self.norm_failed = False
+        self.pay_objs: dict = {}      # payload token -> (type, shape, metadata, doc)
+
+    def fill_entries(self, tensor, tensor_pay: int, vpays) -> str:
+        """Model.tp_fill / t_fill: how serde._deserialize_graph completes a value_info payload of an
+        initializer with the tensor's dtype/shape (only the entries that differ from Model.fill_pay's default)."""
+        import onnx_ir as ir
+        out = {}
+        for vp in vpays:
+            typ, shape, meta, doc = self.pay_objs.get(vp, (None, None, None, None))
+            try:
+                typ2 = typ if typ is not None else ir.TensorType(tensor.dtype)
+                shape2 = shape if shape is not None else tensor.shape
+                r = self.pay_tok(typ2, shape2, meta, doc)
+            except Exception:  # noqa: BLE001
+                continue
+            default = tensor_pay if vp == 0 else vp
+            if r != default:
+                out[vp] = r
+        return clist(f"({a}%N, {b}%N)" for a, b in sorted(out.items()))
 
     def pay_tok(self, type_, shape, metadata, doc, _depth=0) -> int:
         """Token of a value payload; records how the leaf serializer normalises it (Model.norm_pay)."""
         tok = self.tok(payload_key(type_, shape, metadata, doc))
+        if tok:
+            self.pay_objs.setdefault(tok, (type_, shape, metadata, doc))
         if tok and tok not in self.norm and _depth < 4:
             import onnx_ir as ir
             from onnx_ir import serde
@@ -211,6 +232,10 @@ class ProtoConv:
 
     # leaves
     def vinfo(self, p) -> str:
+        pay, bad = self.vinfo_tok(p)
+        return f"(mkVI {cNtok(self.it.tok(p.name))} {cNtok(pay)} {common.cbool(bad)})"
+
+    def vinfo_tok(self, p):
         from onnx_ir import serde
         bad, pay = False, 0
         try:
@@ -221,24 +246,27 @@ class ProtoConv:
             pay = self.it.pay_tok(typ, shape, meta, doc)
         except Exception:  # noqa: BLE001
             bad = True
-        return f"(mkVI {cNtok(self.it.tok(p.name))} {cNtok(pay)} {common.cbool(bad)})"
+        return pay, bad
 
-    def tensor(self, p) -> str:
+    def tensor(self, p, vis=()) -> str:
         import onnx_ir as ir
         from onnx_ir import serde
-        name, tok, pay, bad_ctor, bad_info = 0, 0, 0, False, False
+        name, tok, pay, bad_ctor, bad_info, fill = 0, 0, 0, False, False, "[]"
         try:
             t = serde.deserialize_tensor(p)
             name = self.it.tok(t.name or "")
             tok = self.it.tok(tensor_key(t))
             try:
                 pay = self.it.pay_tok(ir.TensorType(t.dtype), t.shape, None, None)
+                if t.name:
+                    vpays = [vp for vp, vbad in (self.vinfo_tok(i) for i in vis if i.name == t.name) if not vbad]
+                    fill = self.it.fill_entries(t, pay, vpays)
             except Exception:  # noqa: BLE001
                 bad_info = True
         except Exception:  # noqa: BLE001
             bad_ctor = True
         return (f"(mkTP {cNtok(name)} {cNtok(tok)} {cNtok(pay)} {common.cbool(bad_ctor)} "
-                f"{common.cbool(bad_info)})")
+                f"{common.cbool(bad_info)} {fill})")
 
     def attr(self, p) -> str:
         import onnx
@@ -292,7 +320,7 @@ class ProtoConv:
             if any(allnames.count(n) > 1 for n in names_with_meta):
                 self.unmodelled.append("value_info metadata merge")
         return (f"(Gp {cNtok(gname)} {cNtok(gtok)} {clist(self.vinfo(i) for i in p.input)} "
-                f"{clist(self.vinfo(i) for i in p.output)} {clist(self.tensor(t) for t in p.initializer)} "
+                f"{clist(self.vinfo(i) for i in p.output)} {clist(self.tensor(t, p.value_info) for t in p.initializer)} "
                 f"{clist(self.vinfo(i) for i in p.value_info)} {self.nodes(p.node)})")
 
     def function(self, p) -> str:
@@ -555,12 +583,19 @@ def ir_heap(model, it: Interner, tensor_key_fn=tensor_key) -> tuple[str, str, IR
             clist(f"{w.ln(n)}%nat" for n in g)))
     tens = []
     for t in tensors:
+        fill = "[]"
         try:
             import onnx_ir as ir
             pay, bad = it.pay_tok(ir.TensorType(t.dtype), t.shape, None, None), False
+            vpays = set()
+            for v in w.values:
+                if v.const_value is t:
+                    vp = value_pay_tok(it, v)
+                    vpays |= {vp, it.norm.get(vp, vp)}
+            fill = it.fill_entries(t, pay, sorted(vpays))
         except Exception:  # noqa: BLE001
             pay, bad = 0, True
-        tens.append(f"(mkT {copt_name(it, t.name)} {cNtok(it.tok(tensor_key_fn(t)))} {cNtok(pay)} {common.cbool(bad)})")
+        tens.append(f"(mkT {copt_name(it, t.name)} {cNtok(it.tok(tensor_key_fn(t)))} {cNtok(pay)} {common.cbool(bad)} {fill})")
     heap = f"(mkH {clist(vals)} {clist(nodes)} {clist(graphs)} {clist(tens)})"
     funcs = [f"(mkF {cNtok(it.tok(('fn', f.domain, f.name, f.overload)))} {cNtok(function_tok(it, f))} {w.lg(f.graph)}%nat)"
              for f in model.functions.values()]
